@@ -23,8 +23,8 @@ import (
 )
 
 const rule = "case = 1..4 named routes (registered through Get / Route / Routes / Any / Combo, outside a group, inside one, or inside up to three nested groups next to sibling routes) and 1..6 build requests, each an assignment giving every bind a value from {absent, empty, plain, with '/', with '{other-bind}', with '{self}', with '{' or '}', '%41'} plus unknown names (far from every bind, one character away from one, a literal of the route), with or without withOptional; pairs of builds whose lists of pairs read alike once joined with a separator; " +
-	"oracle = own single-pass substitution over the derivation, compared with Router.URLPath and Context.URLPath (inside a handler). Inverse: requests built from route instances are served, the handler builds the URL of its own named route from the parameters it received (optional segment iff the request used it) and must get the decoded request path back. " +
-	"Also: Name(\"\"), a duplicate name and URLPath of an unknown name must panic. " +
+	"oracle = own single-pass substitution over the derivation, compared with Router.URLPath and Context.URLPath (inside a handler of a route without binds, and inside the handlers of the dispatched requests of the inverse direction, whose own bind values - some under names the target uses too - must not leak into the URL). Inverse: requests built from route instances are served, the handler builds the URL of its own named route from the parameters it received (optional segment iff the request used it) and must get the decoded request path back. " +
+	"Every URL handed out is read again after all later builds and requests of the case: the string value a caller holds stays what it was. Also: Name(\"\"), a duplicate name and URLPath of an unknown name must panic. " +
 	"non-trivial = a build whose values contain braces or another bind's name, or whose route has >=2 binds or a parameter list, or an inverse check on a path with an escape; distinct by case text"
 
 var assumptions = []string{
@@ -195,8 +195,8 @@ func mustPanic(f func()) (p interface{}) {
 	return nil
 }
 
-func checkCase(c Case) evid.Outcome {
-	out := evid.Outcome{Sub: len(c.Builds) + len(c.Reqs)}
+func checkCase(c Case) (out evid.Outcome) {
+	out = evid.Outcome{Sub: len(c.Builds) + len(c.Reqs)}
 	a, err := build(c)
 	if err != nil {
 		// every route of a case is one the router is obliged to accept, and the
@@ -244,6 +244,22 @@ func checkCase(c Case) evid.Outcome {
 	}
 
 	// ---- forward direction
+	// every URL handed out is kept (next to a private copy of its bytes) and
+	// looked at again when all other builds and requests are over: a string a
+	// caller holds stays what it was
+	type heldURL struct{ got, copy, name string }
+	var held []heldURL
+	defer func() {
+		if out.Violation != "" {
+			return
+		}
+		for _, h := range held {
+			if h.got != h.copy {
+				out = evid.Fail("url-changed-later", "URLPath(%q, ...) returned %q; after later builds and requests the same string value reads %q", h.name, h.copy, h.got)
+				return
+			}
+		}
+	}()
 	for _, b := range c.Builds {
 		d, ok := a.byName[b.Name]
 		if !ok {
@@ -255,6 +271,7 @@ func checkCase(c Case) evid.Outcome {
 		}
 		want := expected(d, vals, b.asked())
 		got := a.f.URLPath(b.Name, pairsOf(b)...)
+		held = append(held, heldURL{got, string(append([]byte(nil), got...)), b.Name})
 		if want == "" && got == "/" {
 			// a route that consists of one optional segment, built without it: the
 			// request that used this form had the path "/", which is what comes
@@ -327,6 +344,7 @@ func checkCase(c Case) evid.Outcome {
 	// ---- inverse direction
 	for _, q := range c.Reqs {
 		var gotURL [2]string
+		var foreign []string
 		var name string
 		var params map[string]string
 		a.seen = func(n string, ctx flamego.Context) {
@@ -341,6 +359,14 @@ func checkCase(c Case) evid.Outcome {
 			}
 			gotURL[0] = ctx.URLPath(n, pairs...)
 			gotURL[1] = ctx.URLPath(n, append(pairs, "withOptional", "true")...)
+			// the builds of the case once more, from inside this request: what the
+			// request itself was dispatched with (its own bind values, some under
+			// names the target route uses too) has no say in another route's URL
+			for _, b := range c.Builds {
+				if _, ok := a.byName[b.Name]; ok {
+					foreign = append(foreign, ctx.URLPath(b.Name, pairsOf(b)...))
+				}
+			}
 		}
 		rec := httptest.NewRecorder()
 		a.f.ServeHTTP(rec, q.HTTP())
@@ -348,6 +374,31 @@ func checkCase(c Case) evid.Outcome {
 		if name == "" {
 			out.Classes = append(out.Classes, "inverse-not-dispatched")
 			continue
+		}
+		fi := 0
+		for _, b := range c.Builds {
+			bd, ok := a.byName[b.Name]
+			if !ok {
+				continue
+			}
+			vals := map[string]string{}
+			for _, kv := range b.Pairs {
+				vals[kv[0]] = kv[1]
+			}
+			want, got := expected(bd, vals, b.asked()), foreign[fi]
+			fi++
+			if want == "" && got == "/" {
+				got = ""
+			}
+			if got != want {
+				return evid.Fail("context-urlpath", "inside a request for %q (served by %q with %s): Context.URLPath(%q, %v) of route %q = %q, exact single-pass substitution of the given pairs gives %q", q.P, a.byName[name].Canon(), rt.Show(params), b.Name, pairsOf(b), bd.Canon(), got, want)
+			}
+			for k := range params {
+				if _, given := vals[k]; k != "route" && !given && bd.Canon() != a.byName[name].Canon() && strings.Contains(want, "{"+k+"}") {
+					out.NonTrivial = true
+					out.Classes = append(out.Classes, "built-inside-a-request-that-binds-an-unsupplied-name")
+				}
+			}
 		}
 		d := a.byName[name]
 		// decoded reconstruction of the path: the route's own binds substituted
